@@ -316,6 +316,12 @@ def run_once(prog, how, seed, settings, clock, outfile, in_thread=False, late=Fa
         if prog.get("max_stack"):
             opts.MAX_TASK_STACK_SIZE = prog["max_stack"]
         rt = harness.HarnessRT(prog, prio=("content", PRIO[1]) if prog.get("content_priority") else PRIO, seed=seed)
+        if prog.get("deep_args"):
+            # every task's first argument is a structure whose repr() raises RecursionError
+            deep = []
+            for _ in range(20000):
+                deep = [deep]
+            rt.deep_repr = deep
         if prog.get("percent_args"):
             # every task's first argument prints with per-cent signs in it (a LIKE pattern, a format string): names
             # and dumps are built from the arguments' repr()
@@ -386,6 +392,9 @@ def run_unit(unit, progress):
         if i % 4 == 3:
             prog["content_priority"] = True
             inc("programs_whose_batch_priority_depends_on_the_items")
+        if i % 10 == 8:
+            prog["deep_args"] = True
+            inc("programs_whose_task_arguments_have_no_computable_repr")
         if i % 5 == 1:
             prog["percent_args"] = True
             inc("programs_whose_task_arguments_print_with_per_cent_signs")
